@@ -1,6 +1,10 @@
 package conf
 
 import (
+	"math/bits"
+	"strconv"
+	"strings"
+
 	"code.cloudfoundry.org/bytefmt"
 
 	"github.com/bluenviron/mediamtx/internal/conf/jsonwrapper"
@@ -10,8 +14,38 @@ import (
 type StringSize uint64
 
 // MarshalJSON implements json.Marshaler.
+// The value is written exactly, as an integer count of the largest unit that divides it
+// (bytefmt.ByteSize keeps a single decimal: 1500 would be written as "1.5K" and read back as 1536).
 func (s StringSize) MarshalJSON() ([]byte, error) {
-	return []byte(`"` + bytefmt.ByteSize(uint64(s)) + `"`), nil
+	const units = "BKMGTPE"
+	v := uint64(s)
+	i := 0
+	for v != 0 && v%1024 == 0 && i < len(units)-1 {
+		v /= 1024
+		i++
+	}
+	return []byte(`"` + strconv.FormatUint(v, 10) + units[i:i+1] + `"`), nil
+}
+
+// parseExactSize parses "<integer><unit>" without going through float64.
+func parseExactSize(in string) (uint64, bool) {
+	const units = "BKMGTPE"
+	if len(in) < 2 {
+		return 0, false
+	}
+	i := strings.IndexByte(units, in[len(in)-1])
+	if i < 0 {
+		return 0, false
+	}
+	v, err := strconv.ParseUint(in[:len(in)-1], 10, 64)
+	if err != nil {
+		return 0, false
+	}
+	hi, lo := bits.Mul64(v, uint64(1)<<(10*uint(i)))
+	if hi != 0 {
+		return 0, false
+	}
+	return lo, true
 }
 
 // UnmarshalJSON implements json.Unmarshaler.
@@ -19,6 +53,11 @@ func (s *StringSize) UnmarshalJSON(b []byte) error {
 	var in string
 	if err := jsonwrapper.Unmarshal(b, &in); err != nil {
 		return err
+	}
+
+	if v, ok := parseExactSize(in); ok {
+		*s = StringSize(v)
+		return nil
 	}
 
 	v, err := bytefmt.ToBytes(in)
